@@ -17,7 +17,7 @@ def _two_on_worker(b, opt=False):
 
 
 OBJECTIVES = ["none", "makespan", "flowtime", "priorities", "start_latest", "start_earliest", "greatest_start",
-              "min_expr", "max_expr", "cost", "two_min", "two_max"]
+              "min_expr", "max_expr", "min_bounded", "max_bounded", "cost", "two_min", "two_max"]
 
 
 def add_objective(b, name, a, c, w=None):
@@ -40,6 +40,13 @@ def add_objective(b, name, a, c, w=None):
         b.obj("ObjectiveMinimizeIndicator", ind=i, kind="minimize", weight=1)
     elif name == "max_expr":
         i = b.ind("IndicatorFromMathExpression", name="E", expr=sub(end(c), start(a)))
+        b.obj("ObjectiveMaximizeIndicator", ind=i, kind="maximize", weight=1)
+    elif name == "min_bounded":
+        # an indicator with declared (true) two-sided bounds: H - start(a) ranges over 0..H
+        i = b.ind("IndicatorFromMathExpression", name="EB", expr=sub(const(b.p["H"]), start(a)), bounds=[0, b.p["H"]])
+        b.obj("ObjectiveMinimizeIndicator", ind=i, kind="minimize", weight=1)
+    elif name == "max_bounded":
+        i = b.ind("IndicatorFromMathExpression", name="EB", expr=sub(const(b.p["H"]), start(a)), bounds=[0, b.p["H"]])
         b.obj("ObjectiveMaximizeIndicator", ind=i, kind="maximize", weight=1)
     elif name == "cost":
         i = b.ind("IndicatorResourceCost", ress=[res_worker(x) for x in w], by_objective=True)
